@@ -291,8 +291,8 @@ def stmt_hook(tr, s, rest, env, fin, ind):
         return f"{pad}if {test} then\n{ok}\n{pad}else\n{hb}"
     if isinstance(s, ast.Match):
         return match_stmt(tr, s, rest, env, fin, ind)
-    if isinstance(s, ast.For) and isinstance(s.target, ast.Tuple):
-        return for_tuple(tr, s, rest, env, fin, ind)
+    if isinstance(s, ast.For) and isinstance(s.target, ast.Tuple) and not tr.spec.get("for_r"):
+        return for_tuple(tr, s, rest, env, fin, ind)      # (spec for_r: the res-aware loop of the metrics extension)
     if isinstance(s, ast.Assign) and len(s.targets) == 1 and isinstance(s.targets[0], ast.Subscript):
         # d[k] = v
         tg = s.targets[0]
